@@ -89,7 +89,7 @@ META = {
              "with their text (dispatcher_errors_reach_client), a nil return never yields an error "
              "(success_never_yields_error); the composition with the concurrent manager/transport is evidenced by end-to-end "
              "correspondence runs over net.Pipe, not proved. The statements hold with ManualFlush and unflushed client data (the masking "
-             "defect of DESIGN §9-13 was repaired by fix 56786c9, found by this obligation; regression oracle in the suite). One "
+             "defect of DESIGN §9-13 was repaired by fix 5e78564, found by this obligation; regression oracle in the suite). One "
              "excluded point is a theorem replayed on the code and listed as a finding: error after CloseSend.",
         design_ref="DESIGN.md §6 C10, §9-10, §9-13",
         note=NOTE_COMMON + "Error values are an inductive model (which methods exist, what they return, the Error() text); "
